@@ -388,9 +388,9 @@ Example C15_nonvacuous_associativity :
   let c := fill (new_obj false 2%nat) [IRel (t 4 [(7, 1)]) None] in
   let p := mkq 1 4 in let q := mkq 1 2 in
   (p * q)%Qc <> 1%Qc /\ (0 < num a)%nat /\ (0 < num b)%nat /\ (0 < num c)%nat /\
-  option_map vz (average (merge_obj (merge_obj a b (Some p) 3%nat) c (Some q) 4%nat)) = Some [(655, 128)] /\
+  option_map vz (average (merge_obj (merge_obj a b (Some p) 3%nat) c (Some q) 4%nat)) = Some [(97, 16)] /\
   option_map vz (average (merge_obj a (merge_obj b c (Some (q * (1 - p) / (1 - p * q))%Qc) 3%nat)
-                                   (Some (p * q)%Qc) 4%nat)) = Some [(655, 128)] /\
+                                   (Some (p * q)%Qc) 4%nat)) = Some [(97, 16)] /\
   option_map vz (average (merge_obj b a (Some (1 - p)%Qc) 3%nat)) =
   option_map vz (average (merge_obj a b (Some p) 3%nat)).
 Proof.
